@@ -220,7 +220,7 @@ pub fn c12(run: &'static Run) -> (u64, u64) {
                 // probe searches below, so that an implementation that resets lazily is not flagged
                 let fresh = fresh_like(size);
                 if after.2 != fresh.2 {
-                    run.violation("ucinewgame-not-fresh", format!("ucinewgame-stats|{}", hsess.key(usize::MAX)), hsess.json(usize::MAX), format!("after ucinewgame the fill indicator (hashfull) is {}, a fresh engine shows {}", after.2, fresh.2));
+                    run.violation("ucinewgame-not-fresh", format!("ucinewgame-stats|{}", hsess.key(usize::MAX)), tagged(hsess.json(usize::MAX), "fill-after-newgame", size), format!("after ucinewgame the fill indicator (hashfull) is {}, a fresh engine shows {}", after.2, fresh.2));
                 }
             }
         }
@@ -237,7 +237,7 @@ pub fn c12(run: &'static Run) -> (u64, u64) {
                 (Ok((tf, _)), Ok((tn, _))) => {
                     let suffix: Trace = tf[cut..].to_vec();
                     if let Some(d) = diff_traces(&suffix, &tn) {
-                        run.violation("ucinewgame-not-fresh", format!("ucinewgame-not-fresh|{}", full.key(usize::MAX)), full.json(usize::MAX), format!("searches after ucinewgame differ from the same searches on a freshly started engine with Hash {size}: {d}"));
+                        run.violation("ucinewgame-not-fresh", format!("ucinewgame-not-fresh|{}", full.key(usize::MAX)), tagged(full.json(usize::MAX), "fresh-differential", size), format!("searches after ucinewgame differ from the same searches on a freshly started engine with Hash {size}: {d}"));
                     }
                 }
                 (Err(e), _) | (_, Err(e)) => run.violation("search-panic", format!("search-panic|{}", full.key(usize::MAX)), full.json(usize::MAX), e),
@@ -249,6 +249,64 @@ pub fn c12(run: &'static Run) -> (u64, u64) {
     // (c) through the real command loop
     let c = c12_uci(run);
     (a + b + c, n_search.load(Ordering::Relaxed) + b * 2 + c)
+}
+
+fn tagged(mut j: J, oracle: &str, fresh_hash_mb: usize) -> J {
+    if let J::Obj(kv) = &mut j {
+        kv.push(("oracle".to_string(), J::s(oracle)));
+        kv.push(("fresh_hash_mb".to_string(), J::i(fresh_hash_mb as i64)));
+    }
+    j
+}
+
+/// Replay of a C12 session case with its differential oracle: what follows the last ucinewgame is compared with the
+/// same searches on a fresh state.
+pub fn replay_c12_session(run: &Run, case: &J) -> bool {
+    let Some(oracle) = case.get("oracle").and_then(|x| x.as_str()) else { return false };
+    let size = case.get("fresh_hash_mb").and_then(|x| x.as_i64()).unwrap_or(1) as usize;
+    let full = Session::from_json(case);
+    let Some(cut_at) = full.steps.iter().rposition(|s| matches!(s, Step::NewGame)) else { return false };
+    match oracle {
+        "fresh-differential" => {
+            let probe: Vec<Step> = full.steps[cut_at + 1..].to_vec();
+            let cut = full.steps[..cut_at].iter().filter(|s| matches!(s, Step::Search(..))).count();
+            let fresh = Session { hash_mb: size, start_gen: 0, steps: probe };
+            match (exec_trace(&full, None), exec_trace(&fresh, None)) {
+                (Ok((tf, _)), Ok((tn, _))) => {
+                    let suffix: Trace = tf[cut..].to_vec();
+                    match diff_traces(&suffix, &tn) {
+                        Some(d) => {
+                            println!("after ucinewgame vs fresh engine (Hash {size}): {d}");
+                            run.violation("ucinewgame-not-fresh", String::new(), J::Null, d);
+                        }
+                        None => println!("the searches after ucinewgame equal those of a fresh engine (Hash {size})"),
+                    }
+                }
+                (Err(e), _) | (_, Err(e)) => run.violation("search-panic", String::new(), J::Null, e),
+            }
+        }
+        _ => {
+            let r = catch(|| {
+                let mut ps = PersistentState::new(1);
+                for st in &full.steps {
+                    match st {
+                        Step::NewGame => ps.reset(),
+                        Step::SetHash(mb) => ps.tt.resize(*mb),
+                        Step::Search(gs, spec, _) => {
+                            let (g, _) = gs.build().unwrap();
+                            let _ = run_search(&mut ps, &g, spec, &Env::Default, DEFAULT_NODE_BUDGET);
+                        }
+                    }
+                }
+                ps.tt.occupancy() as usize
+            });
+            println!("fill indicator after the history: {r:?} (a fresh engine shows 0)");
+            if r != Ok(0) {
+                run.violation("ucinewgame-not-fresh", String::new(), J::Null, format!("fill indicator {r:?} after ucinewgame"));
+            }
+        }
+    }
+    true
 }
 
 /// C12 under schedules: tvc-sched explores every interleaving of the command loop and the search thread for
